@@ -104,6 +104,7 @@ structure PTok where
   tok : Tok
   b : Nat
   e : Nat
+  deriving DecidableEq
 
 /-! ## printing -/
 
@@ -279,6 +280,7 @@ inductive LR where
   | ok (ts : List PTok)
   | err            -- `l.Err` set by the lexer (bad token, bad number, bad feature ID, unterminated string)
   | unsupported    -- a byte the model's lexer does not cover (non-ASCII outside a string)
+  deriving DecidableEq
 
 def isSpace (c : Nat) : Bool := c == 32 || (9 ≤ c && c ≤ 13)
 def isDigitB (c : Nat) : Bool := 48 ≤ c && c ≤ 57
